@@ -226,3 +226,54 @@ class TriggerContract(Contract):
         ex.writes |= {"Aggregated.terms", "Rule.triggered"}
         ex.trigger_calls.append((r, d, impl))
         return None
+
+
+# ---------------------------------------------------------------------------------------------------- antecedent semantics (Appendix A.4 `sem`)
+sem_node = z3.Function("sem_node", Ref, Ref, Ref, TArr, VArr, XR)     # value of an expression node
+wf_expr = z3.Function("wf_expr", Ref, Ref, Ref, z3.BoolSort())        # well-formed (loaded) expression tree for the given connectives
+height = z3.Function("height", Ref, z3.IntSort())                     # ghost: height of an expression tree (decreases measure)
+agg_activation = z3.Function("agg_activation", SeqAct, Ref, Ref, XR)  # Aggregated.activation_degree(term): degree of term.name in the grouped terms
+
+
+def any_hedge_axiom(sc, h, x):
+    """interface fact from C05 (`Any.hedge` is the constant 1 for every x, NaN included)"""
+    return z3.Implies(cls_of(h) == sc.ids["Any"], hedge_fn(h, x) == x2xr(xr.const(1.0)))
+
+
+def sem_unfold(sc, H, node, conj, disj, T, V):
+    """one-level unfolding of `sem_node` and `wf_expr` at `node` (ground instance; children stay folded)"""
+    PROP, OPER = sc.ids["Proposition"], sc.ids["Operator"]
+    var, hs, term = H["Proposition.variable"][node], H["Proposition.hedges"][node], H["Proposition.term"][node]
+    n = z3.Length(hs)
+    last = hs[n - 1]
+    is_any = z3.And(n > 0, cls_of(last) == sc.ids["Any"])
+    NANX = x2xr(xr.const(float("nan")))
+    base = z3.If(cls_of(var) == sc.ids["InputVariable"], membership_fn(term, H["Variable._value"][var]) if V is None else membership_fn(term, V[var]),
+                 agg_activation(T[H["OutputVariable.fuzzy"][var]], H["Aggregated.aggregation"][H["OutputVariable.fuzzy"][var]], term))
+    prop_val = z3.If(z3.Not(H["Variable.enabled"][var]), x2xr(xr.const(0.0)),
+                     z3.If(is_any, hedged(hs, n, NANX), hedged(hs, n, base)))
+    l, r, nm = H["Operator.left"][node], H["Operator.right"][node], H["Operator.name"][node]
+    AND, OR = strc("and"), strc("or")
+    op_val = z3.If(nm == AND, compute_fn(conj, sem_node(l, conj, disj, T, V), sem_node(r, conj, disj, T, V)),
+                   compute_fn(disj, sem_node(l, conj, disj, T, V), sem_node(r, conj, disj, T, V)))
+    facts = [z3.Implies(cls_of(node) == PROP, sem_node(node, conj, disj, T, V) == prop_val),
+             z3.Implies(cls_of(node) == OPER, sem_node(node, conj, disj, T, V) == op_val)]
+    wf_prop = z3.And(var != NONE, z3.Length(H["Variable.terms"][var]) > 0,
+                     z3.Or(cls_of(var) == sc.ids["InputVariable"], cls_of(var) == sc.ids["OutputVariable"]),
+                     z3.Implies(cls_of(var) == sc.ids["OutputVariable"], H["OutputVariable.fuzzy"][var] != NONE),
+                     z3.Implies(n > 0, last != NONE), z3.Or(is_any, term != NONE))
+    wf_op = z3.And(l != NONE, r != NONE, wf_expr(l, conj, disj), wf_expr(r, conj, disj), z3.Or(nm == AND, nm == OR),
+                   z3.Implies(nm == AND, conj != NONE), z3.Implies(nm == OR, disj != NONE),
+                   height(l) >= 0, height(r) >= 0, height(node) > height(l), height(node) > height(r))
+    facts += [z3.Implies(wf_expr(node, conj, disj), z3.And(node != NONE, z3.Or(cls_of(node) == PROP, cls_of(node) == OPER), height(node) >= 0,
+                                                            z3.Implies(cls_of(node) == PROP, wf_prop), z3.Implies(cls_of(node) == OPER, wf_op)))]
+    return facts
+
+
+def _agg_activation(ex, p, recv, args, kwargs, node):
+    t = agg_activation(p.heap["Aggregated.terms"][recv.r], p.heap["Aggregated.aggregation"][recv.r], args[0].r)
+    p.pc.append(canon(t))
+    return Num(xr2x(t), True, False)
+
+
+INTERFACES[("Aggregated", "activation_degree")] = _agg_activation
